@@ -139,6 +139,11 @@ func FSCrashAt(k int) {}
 // FSRun runs f; returns true if a scheduled crash stopped it (engine only).
 func FSRun(f func()) bool { f(); return false }
 
+// FSPublishGuard declares an ordering rule: whenever `final` comes into existence
+// by rename, `mustBeClean` must hold no unflushed writes (otherwise the ghost event
+// "publish-beside-unsynced-file <final>" is recorded). No-op natively.
+func FSPublishGuard(final, mustBeClean string) {}
+
 // Ghost-state queries of the ordering rules (engine; natively from the syscall trace twin).
 func FSEvents(prefix string) uint64 { return 0 }
 func FSFileDirty(path string) bool  { return false }
